@@ -98,7 +98,7 @@ CHECKS = {
     "C05": dict(
         level="model_checking",
         rule="every triple (observed, lastApplied, desired), each side absent or drawn from a complete finite universe, enumerated exhaustively per family: F1 nested maps/scalars/nulls (quick 68^3, thorough 404^3 triples), F2 plain lists and list-maps under each of the 7 conventional merge keys and under none (quick up to 75^3, thorough 237^3 per key), "
-             "F3 items carrying two conventional keys (21 key pairs), F4 ApplyUpdate with system metadata/status/last-applied wrapping; non-trivial = in the statement's domain with non-empty observed and desired; plus an end-to-end explicit-state search over CHANGES of the desired state through the real sync (parent spec = value x replicas(1-2) x a child map {a,b}/{a}/{}/absent x a list-map two/one/no items x desired child with/without a status key [x hook annotation x extra label in the thorough tier]; events: every single-field change from every reachable spec, child deleted / orphaned / drifted; InPlace, Recreate, OnDelete under dynamic apply and server-side apply, composite children and decorator attachments): after every event the controller is synced to quiescence under a fair environment and the store must equal the store of a fresh world started directly with the same spec (differential oracle); the search closes (fixpoint), so change sequences of any length are covered",
+             "F3 items carrying two conventional keys (21 key pairs), F4 ApplyUpdate with system metadata/status/last-applied wrapping; non-trivial = in the statement's domain with non-empty observed and desired; plus an end-to-end explicit-state search over CHANGES of the desired state through the real sync (parent spec = value x replicas(1-2) x a child map {a,b}/{a}/{}/absent x a list-map two/one/no items x desired child with/without a status key [x hook annotation x extra label in the thorough tier]; events: every single-field change from every reachable spec - alone, together with a sync hook that answers 500 once, and together with one refused child write -, child deleted / orphaned / drifted; hook style: builds children from scratch / returns the observed annotations / returns the observed metadata and status; InPlace, Recreate, OnDelete under dynamic apply and server-side apply, composite children and decorator attachments): after every event the controller is synced to quiescence under a fair environment and the store must equal the store of a fresh world started directly with the same spec (differential oracle); the search closes (fixpoint), so change sequences of any length are covered",
         units=[
             dict(pkg=COMMON, test="TestVerifC05", shards=dict(quick=16, thorough=16), budget=dict(quick=600, thorough=3000)),
             dict(pkg=COMPOSITE, test="TestVerifC05Hist", shards=dict(quick=4, thorough=7), budget=dict(quick=600, thorough=1800)),
@@ -121,7 +121,7 @@ CHECKS = {
     "C01": dict(
         level="model_checking",
         rule="configuration (parent scope x 1-2 child kinds x 6 update methods x generateSelector x finalize hook x dynamic/server-side apply) x hook program (static 0-2, fromSpec, ordered StatefulSet-like, echoStatus) x initial cluster contents (two desired-name slots over {absent, owned, owned drifted, owned+foreign field, matching orphan, drifted orphan} x stale owned child x foreign-owned look-alike x same name in the other namespace; cluster-scoped parents: every desired child also has a same-named twin in a second namespace; some desired children carry annotations of the hook's own, omit their namespace, or echo the generated selector label) "
-             "x stale-cache deviations (thorough: partial delivery in the first 0-2 rounds); each scenario is driven `sync; deliver; gc` to quiescence within N rounds, then one more sync; quick tier = a covering sub-product; plus an end-to-end explicit-state search over CHANGES of the desired state through the real sync (parent spec = value x replicas(1-2) x a child map {a,b}/{a}/{}/absent x a list-map two/one/no items x desired child with/without a status key [x hook annotation x extra label in the thorough tier]; events: every single-field change from every reachable spec, child deleted / orphaned / drifted; InPlace, Recreate, OnDelete under dynamic apply and server-side apply, composite children and decorator attachments): after every event the controller is synced to quiescence under a fair environment and the store must equal the store of a fresh world started directly with the same spec (differential oracle); the search closes (fixpoint), so change sequences of any length are covered",
+             "x stale-cache deviations (thorough: partial delivery in the first 0-2 rounds); each scenario is driven `sync; deliver; gc` to quiescence within N rounds, then one more sync; quick tier = a covering sub-product; plus an end-to-end explicit-state search over CHANGES of the desired state through the real sync (parent spec = value x replicas(1-2) x a child map {a,b}/{a}/{}/absent x a list-map two/one/no items x desired child with/without a status key [x hook annotation x extra label in the thorough tier]; events: every single-field change from every reachable spec - alone, together with a sync hook that answers 500 once, and together with one refused child write -, child deleted / orphaned / drifted; hook style: builds children from scratch / returns the observed annotations / returns the observed metadata and status; InPlace, Recreate, OnDelete under dynamic apply and server-side apply, composite children and decorator attachments): after every event the controller is synced to quiescence under a fair environment and the store must equal the store of a fresh world started directly with the same spec (differential oracle); the search closes (fixpoint), so change sequences of any length are covered",
         units=[
             dict(pkg=COMPOSITE, test="TestVerifC01", shards=dict(quick=12, thorough=16), budget=dict(quick=600, thorough=3300)),
             dict(pkg=DECORATOR, test="TestVerifC01", shards=dict(quick=4, thorough=16), budget=dict(quick=600, thorough=3300)),
